@@ -1,4 +1,6 @@
 """C04 — each trait instruction yields exactly the documented set of trait impls."""
+import re
+
 from ..pe import Evaluator, ListV, StructV, SymObj, Tag, Toks, explore, vkey
 from ..skeleton import assoc_types, fn_of_impl, impl_table
 from ..src import Inconclusive, find, method_calls, render, walk
@@ -94,8 +96,9 @@ def r3_filter(chk):
     if len(fl) != 1 or not fl[0]["args"] or fl[0]["args"][0]["k"] != "Closure":
         raise Inconclusive("iter_for_kind: expected exactly one .filter(closure)")
     recv = render(fl[0]["recv"])
-    chk.expect("R3", "iter_for_kind/source", recv.replace(" ", "") == "self.attrs.iter()", ATTR, fi.line, "filter is not applied to all of self.attrs in order",
-               expected="self.attrs.iter()", found=recv)
+    rs_ = recv.replace(" ", "")
+    chk.shape("R3", "iter_for_kind/source", rs_ == "self.attrs.iter()", "self.attrs" not in rs_ or bool(re.search(r"\.(take|skip|rev|step_by|filter)\(", rs_)), ATTR, fi.line,
+              "filter is not applied to all of self.attrs in order", expected="self.attrs.iter()", found=recv)
     # nothing else in the chain may drop/reorder
     outer = [m["method"] for m in method_calls(fi.body)]
     bad = [m for m in outer if m in ("take", "skip", "rev", "step_by", "skip_while", "take_while", "nth", "last", "dedup", "sorted")]
@@ -174,15 +177,16 @@ def r4_chain(chk):
     # `ty` must be the deriving type's ident; nothing but chain/map/empty on the path to the output
     lets = {s["pat"].get("name"): s.get("init") for s in fi.body["stmts"] if s["k"] == "Let" and s["pat"]["k"] == "PIdent"}
     ty_src = render(lets.get("ty")) if lets.get("ty") else "?"
-    chk.expect("R4", "data_type_impl/ty", ty_src.replace(" ", "") == "input.get_ident().to_token_stream()", EXPAND, fi.line, "own type tokens are not the deriving type's ident", found=ty_src)
+    chk.shape("R4", "data_type_impl/ty", ty_src.replace(" ", "") == "input.get_ident().to_token_stream()", "ident" not in ty_src, EXPAND, fi.line, "own type tokens are not the deriving type's ident", found=ty_src)
     meths = sorted({m["method"] for m in method_calls(fi.body)} - {"iter_for_kind_core", "iter_for_kind", "get_ident", "get_attrs", "to_token_stream"})
-    chk.expect("R4", "data_type_impl/adaptors", set(meths) <= {"chain", "map"}, EXPAND, fi.line, "an adaptor other than chain/map sits between the instructions and the output", found=meths)
+    chk.shape("R4", "data_type_impl/adaptors", set(meths) <= {"chain", "map"}, bool(set(meths) & set(("take", "skip", "rev", "step_by", "skip_while", "take_while", "nth", "last", "dedup", "filter", "sort", "sort_by", "sort_by_key", "sort_unstable", "sort_unstable_by", "reverse", "retain"))), EXPAND, fi.line,
+              "an adaptor that drops or reorders sits between the instructions and the output", found=meths)
     last = fi.body["stmts"][-1]
     tail = render(last.get("expr")) if last["k"] == "ExprStmt" else ""
-    chk.expect("R4", "data_type_impl/output", "#(#impls)*" in tail.replace(" ", ""), EXPAND, last["line"], "output is not the plain concatenation of the impls", found=tail[:80])
+    chk.shape("R4", "data_type_impl/output", "#(#impls)*" in tail.replace(" ", ""), "impls" not in tail, EXPAND, last["line"], "output is not the plain concatenation of the impls", found=tail[:80])
     # the chain must end in .map(|ctx| quote_trait(..ctx))
     qt = [m for m in method_calls(fi.body, "map") if m["args"] and m["args"][0]["k"] == "Closure" and "quote_trait(" in render(m["args"][0]["body"])]
-    chk.expect("R4", "data_type_impl/quote_trait", len(qt) == 1, EXPAND, fi.line, "impl contexts are not all rendered through quote_trait exactly once", found=len(qt))
+    chk.shape("R4", "data_type_impl/quote_trait", len(qt) == 1, len(qt) == 0, EXPAND, fi.line, "impl contexts are not all rendered through quote_trait exactly once", found=len(qt))
 
 
 def r5_r6_impls(chk):
